@@ -491,6 +491,136 @@ def replay_links(ctx, tree, cases, compiler="chibicc", report=True):
     return results
 
 
+# ------------------------------------------------------------------ library layer (LinkLine.tla)
+LIB_SRC = {"a1": "int fb(int);\nint fa(int x) { return fb(x) + 100; }\n",
+           "b1": "int fb(int x) { return x * 7 + 1; }\n",
+           "b2": "int fc(int x) { return x + 1000; }\n",
+           "main1": "int printf(const char *, ...);\nint fa(int);\nint main(void) { printf(\"R %d\\n\", fa(3)); return 0; }\n",
+           "main2": "int printf(const char *, ...);\nint fa(int);\nint fc(int);\n"
+                    "int main(void) { printf(\"R %d %d\\n\", fa(3), fc(3)); return 0; }\n"}
+LIB_EXPECT = {1: "R 122", 2: "R 122 1003"}
+LIB_FLAGS = {"default": [], "nocommon": ["-fno-common"], "pic": ["-fPIC"], "static": []}
+
+
+def lib_cc(tree, compiler, cfg):
+    if compiler == "gcc":
+        return ["gcc", "-std=c11", "-O0", "-w"] + ([] if cfg == "pic" else ["-fno-pie"])
+    return [tree + "/chibicc"]
+
+
+def build_libs(ctx, tree, compiler):
+    """liba / libb as archive and as shared object for every flag set, installed in one directory per
+    (flag set, delivery of liba, delivery of libb).  Returns the root directory."""
+    root = ctx.tmp("libs-" + compiler)
+    for n, t in LIB_SRC.items():
+        open("%s/%s.c" % (root, n), "w").write(t)
+
+    def must(cmd, cwd):
+        p = run_tool(cmd, timeout=120, cwd=cwd)
+        if p.returncode != 0:
+            raise Infra("building the libraries of the library layer failed (%s): %s" % (" ".join(cmd[-3:]), (p.stderr or "")[-400:]))
+    for fs in ("default", "nocommon", "pic"):
+        d = "%s/%s" % (root, fs)
+        os.makedirs(d, exist_ok=True)
+        cc = lib_cc(tree, compiler, fs) + LIB_FLAGS[fs]
+        for n in ("a1", "b1", "b2"):
+            must(cc + ["-c", "-o", "%s/%s.o" % (d, n), "%s/%s.c" % (root, n)], d)
+            must(cc + ["-fPIC", "-c", "-o", "%s/%s.pic.o" % (d, n), "%s/%s.c" % (root, n)], d)
+        must(["ar", "rcs", "liba.a", "a1.o"], d)
+        must(["ar", "rcs", "libb.a", "b1.o", "b2.o"], d)
+        must(lib_cc(tree, compiler, fs) + ["-shared", "-o", "liba.so", "a1.pic.o"], d)
+        must(lib_cc(tree, compiler, fs) + ["-shared", "-o", "libb.so", "b1.pic.o", "b2.pic.o"], d)
+        for da in ("a", "so", "both"):
+            for db in ("a", "so", "both"):
+                i = "%s/%s-%s-%s" % (root, fs, da, db)
+                os.makedirs(i, exist_ok=True)
+                for lib, dl in (("liba", da), ("libb", db)):
+                    for ext in ((".a",) if dl == "a" else (".so",) if dl == "so" else (".a", ".so")):
+                        shutil.copy(d + "/" + lib + ext, i + "/" + lib + ext)
+    return root
+
+
+def run_libline(tree, compiler, root, c, wd):
+    """One driver invocation `cc [flags] -o exe -L<dir> <words in command-line order>`; returns
+    (link ok?, ld words as passed by the driver or None, stderr, program output or None)."""
+    os.makedirs(wd, exist_ok=True)
+    fs = "default" if c["cfg"] == "static" else c["cfg"]
+    inst = "%s/%s-%s-%s" % (root, fs, c["da"], c["db"])
+    words = ["%s/main%d.c" % (root, c["mrefs"]) if w == "M" else w for w in c["line"]]
+    cmd = lib_cc(tree, compiler, c["cfg"]) + (["-###"] if compiler != "gcc" else []) + LIB_FLAGS[c["cfg"]] + \
+        (["-static"] if c["cfg"] == "static" else []) + (["-no-pie"] if compiler == "gcc" and c["cfg"] != "pic" else []) + \
+        (["-Wl,--no-as-needed"] if compiler == "gcc" else []) + ["-o", wd + "/exe", "-L" + inst] + words
+    # (Debian's gcc links with --as-needed, which makes shared objects position dependent as well; chibicc's
+    # driver does not, so the reference compiler is put on the same footing)
+    p = run_tool(cmd, timeout=120, cwd=wd)
+    ldw = None
+    for l in (p.stderr or "").splitlines():
+        t = l.split()
+        if t and t[0] == "ld":
+            ldw = ["M" if x.startswith("/tmp/chibicc-") else x for x in t[1:]
+                   if x.startswith("/tmp/chibicc-") or x in ("-la", "-lb", "-Bstatic", "-Bdynamic")]
+    ok = p.returncode == 0 and os.path.exists(wd + "/exe")
+    out = None
+    if ok:
+        r = run_tool([wd + "/exe"], timeout=30, mem_gb=2, cwd=wd, env=dict(os.environ, LD_LIBRARY_PATH=inst))
+        out = "rc=%d %s" % (r.returncode, r.stdout.strip())
+    shutil.rmtree(wd, ignore_errors=True)
+    return ok, ldw, (p.stderr or ""), out
+
+
+def judge_libline(c, compiler, ok, ldw, err, out):
+    b = judge_libline_outcome(c, ok, err, out)
+    if b is None and compiler != "gcc" and ldw is not None and ldw != c["ld"]:
+        # the program happens to link and run as predicted, but the driver did not keep the words in place
+        return "ld-line-order", "the driver hands ld %s for the command line %s" % (ldw, c["line"])
+    return b
+
+
+def judge_libline_outcome(c, ok, err, out):
+    errtxt = " | ".join(l for l in err.splitlines() if ("undefined reference" in l or "cannot find" in l))[-300:]
+    if c["pred"] == "ok":
+        if not ok:
+            return "link-fails", "expected a running program, the link failed: %s" % (errtxt or err[-300:])
+        if out != "rc=0 " + LIB_EXPECT[c["mrefs"]]:
+            return "output", "expected `%s`, program gave `%s`" % (LIB_EXPECT[c["mrefs"]], out)
+        return None
+    if ok:
+        return "links-although-" + c["pred"], "expected the link to fail (%s), it produced a program printing %s" % (c["pred"], out)
+    want = "undefined reference" if c["pred"] == "undef" else "cannot find"
+    if want not in err:
+        return "fails-differently", "expected `%s`, got: %s" % (want, err[-300:])
+    return None
+
+
+def replay_liblines(ctx, tree, cases, compiler="chibicc", report=True):
+    root = build_libs(ctx, tree, compiler)
+    d = ctx.tmp("libline-" + compiler)
+
+    def one(t):
+        i, c = t
+        return i, judge_libline(c, compiler, *run_libline(tree, compiler, root, c, "%s/k%d" % (d, i)))
+    res = dict(vt.pmap(one, list(enumerate(cases)), workers=8))
+    if not report:
+        return res
+    bad = [(i, cases[i], b) for i, b in sorted(res.items()) if b]
+    for c in cases:
+        ctx.note_case("libline:%s:%s:%s:%d:%s" % (c["cfg"], c["da"], c["db"], c["mrefs"], " ".join(c["line"])), nontrivial=True)
+    ctx.cov["traces_validated_against_impl"] += len(cases)
+    if bad:
+        gres = replay_liblines(ctx, tree, [c for _, c, _ in bad], compiler="gcc", report=False)
+        for j, (i, c, b) in enumerate(bad):
+            if b[0] != "ld-line-order" and gres.get(j):
+                ctx.oracle_disagreements += 1
+                continue
+            kinds = "%s+%s" % ("archive" if c["cfg"] == "static" or c["da"] == "a" else c["da"],
+                               "archive" if c["cfg"] == "static" or c["db"] == "a" else c["db"])
+            ctx.report("libline:%s:%s:%s" % (c["cfg"], kinds, b[0]),
+                       "%s | chibicc %s -L<liba:%s libb:%s> %s" % (b[1], " ".join(LIB_FLAGS[c["cfg"]] + (["-static"] if c["cfg"] == "static" else [])),
+                                                                  c["da"], c["db"], " ".join(c["line"]).replace("M", "main.c")),
+                       case=dict(kind="libline", case=c, sources=LIB_SRC, expected=LIB_EXPECT[c["mrefs"]]))
+    return res
+
+
 def validate_oracle(ctx, tree, cases, tag):
     """Development aid (VERIF_C15_ORACLE=1): Level A against gcc over the whole generated domain."""
     units, n = [], 0
@@ -622,6 +752,34 @@ def run(ctx):
     replay_links(ctx, tree, lsel)
     total["link"] = (len(links), len(lsel))
     ctx.phase("replay links")
+    # library layer: units delivered as archives / shared objects and named with -L/-l
+    out = os.path.join(ctx.scratch, "liblines.ndjson")
+    g = ctx.tlc("link", "LinkLine", ctx.cfg("link", "LinkLine.cfg", Emit=True), env=dict(OUT=out), workers=2)
+    if not g.ok:
+        p = ctx.replay_dir("tlc-LinkLine")
+        open(p + "/counterexample.txt", "w").write(g.trace_text())
+        ctx.report("tlc:LinkLine:%s" % g.violated, "the driver's ld line (Level I) is not the command line in order (Level A)", p)
+    ctl = ctx.tlc("link", "LinkLine", ctx.cfg("link", "LinkLine.cfg", LFirst=True), workers=2, count=False)
+    if ctl.ok:
+        raise Infra("sensitivity control failed: TLC accepts a driver that moves -l/-Wl, in front of the inputs")
+    lines = vt.read_ndjson(out)
+    if len(lines) < 500:
+        raise Infra("LinkLine generator wrote only %d cases" % len(lines))
+    ctx.phase("tlc linkline")
+    if os.environ.get("VERIF_C15_ORACLE") == "liblines":
+        r = replay_liblines(ctx, tree, lines, compiler="gcc", report=False)
+        n = 0
+        for i, b in sorted(r.items()):
+            if b:
+                n += 1
+                if n <= 60:
+                    print("ORACLE-DISAGREEMENT libline %s: %s" % ({k: lines[i][k] for k in ("cfg", "da", "db", "mrefs", "line", "pred")}, b))
+        print("oracle validation liblines: %d cases, %d disagreements" % (len(lines), n))
+    llsel = lines if os.environ.get("VERIF_C15_ALL") else vt.subsample(lines, ctx.seed, 6 if quick else 1)
+    ctx.sample(dict(kind="libline", case=llsel[len(llsel) // 2]), cap=7)
+    replay_liblines(ctx, tree, llsel)
+    total["libline"] = (len(lines), len(llsel))
+    ctx.phase("replay liblines")
     ctx.assumptions += [
         "Level A was validated against gcc 12 -std=c11 -O0 over the whole generated domain at development time; at check time gcc only discards vectors on which it disagrees with the spec",
         "not judged (both allowed): whether an inline definition (6.7.4p7) is emitted as a local copy or called externally; whether an unreferenced internal function not declared inline everywhere is emitted",
@@ -639,6 +797,8 @@ def replay(ctx, path):
         replay_units(ctx, tree, [c["case"]], "replay", force_cfg=c["cfg"])
     elif c.get("kind") == "link":
         replay_links(ctx, tree, [c["case"]])
+    elif c.get("kind") == "libline":
+        replay_liblines(ctx, tree, [c["case"]])
     elif c.get("kind") == "tlc":
         g = gen(ctx, os.path.join(ctx.scratch, "r.ndjson"), Emit=False, **c["consts"])
         if not g.ok:
